@@ -93,7 +93,7 @@ META["C14"] = {
 }
 
 META["C15"] = {
-    "text": "Exhaustive enumeration of the key-consistency grid (435 456 keys) plus structure-aware mutation and coverage-guided fuzzing of the key decoder, with the statement's clauses as an independent judge over the bytes and functional checks of the signer/verifier gates (signature verifies under the key d*G computed by the harness).",
+    "text": "Exhaustive enumeration of the key-consistency grid (850 500 keys) plus structure-aware mutation and coverage-guided fuzzing of the key decoder, with the statement's clauses as an independent judge over the bytes and functional checks of the signer/verifier gates (signature verifies under the key d*G computed by the harness).",
     "note": TRUST + " Known finding F11 (bignum parameter beyond int64 makes the re-encoding undecodable) is listed in known-findings.txt.",
     "technique": "exhaustive grid enumeration + property-based testing (rapid) with tree mutators + native go fuzzing; oracle: reference COSE_Key rules, encode/decode fixpoint, gate model",
 }
